@@ -27,7 +27,7 @@ def outFr (r : Res) : SRes :=
 
 /-- output of the spec for a prefix, followed by the driver on the remaining items -/
 def thenStepsF (r : SRes)
-    (k : List Frame → Except Err (List String × St × Option (List Item))) :
+    (k : Vars → Except Err (List String × St × Option (List Item))) :
     Except Err (List String × St × Option (List Item)) :=
   match r with
   | .error e => .error e
@@ -45,7 +45,7 @@ structure Good (D : Nat → List (List Item)) (cur : Option Nat) (blk : Bool) (k
   above : blk = true → ∀ m, (∀ n, cur = some n → n < m) → st.depth m = 0
 
 theorem Good.setFrames {D : Nat → List (List Item)} {cur : Option Nat} {blk : Bool} {k : Nat} {st : St}
-    (h : Good D cur blk k st) (fs : List Frame) : Good D cur blk k { st with frames := fs } :=
+    (h : Good D cur blk k st) (fs : Vars) : Good D cur blk k { st with frames := fs } :=
   ⟨h.blocks, h.level, h.above⟩
 
 def WF (D : Nat → List (List Item)) : Prop :=
@@ -107,7 +107,7 @@ theorem callBlock_sim {env : Env} {ctx : Cfg} {f : Nat} (h : Hyp env ctx f)
       | false =>
         simp only [Bool.false_eq_true, if_false]
         have hb : (D m)[0]? = some b := by rw [hDm]; rfl
-        have hg' : Good D (some m) true 0 { st with frames := st.frames ++ [[]] } := by
+        have hg' : Good D (some m) true 0 { st with frames := st.frames.push [[]] } := by
           refine ⟨hg.blocks, ?_, ?_⟩
           · intro n hn; cases hn; exact ⟨hd0, by rw [hDm]; simp⟩
           · intro _ m' hm'
@@ -116,7 +116,7 @@ theorem callBlock_sim {env : Env} {ctx : Cfg} {f : Nat} (h : Hyp env ctx f)
             exact Nat.lt_trans (hm n hn) (hm' m rfl)
         rw [h.body D hwf m 0 b disc outer ae _ hb hg']
         simp only []
-        cases (specAll env ctx f).body D m 0 disc outer ae (st.frames ++ [[]]) with
+        cases (specAll env ctx f).body D m 0 disc outer ae (st.frames.push [[]]) with
         | error e => simp [liftS]
         | ok r => obtain ⟨o, fs⟩ := r; simp [liftS]
 
@@ -138,7 +138,7 @@ theorem performSuper_sim {env : Env} {ctx : Cfg} {f : Nat} (h : Hyp env ctx f)
       obtain ⟨body, hbody⟩ : ∃ body, (D n)[k + 1]? = some body := ⟨(D n)[k + 1], by simp [hlt]⟩
       simp only [hbody]
       have hg' : Good D (some n) true (k + 1)
-          { st with depth := setAt st.depth n (k + 1), frames := st.frames ++ [[]] } := by
+          { st with depth := setAt st.depth n (k + 1), frames := st.frames.push [[]] } := by
         refine ⟨hg.blocks, ?_, ?_⟩
         · intro n' hn'; cases hn'; exact ⟨by simp [setAt], hlt⟩
         · intro _ m hm'
@@ -148,7 +148,7 @@ theorem performSuper_sim {env : Env} {ctx : Cfg} {f : Nat} (h : Hyp env ctx f)
           exact hg.above rfl m (by intro n' hn'; cases hn'; exact this)
       rw [h.body D hwf n (k + 1) body disc outer ae _ hbody hg']
       simp only []
-      cases (specAll env ctx f).body D n (k + 1) disc outer ae (st.frames ++ [[]]) with
+      cases (specAll env ctx f).body D n (k + 1) disc outer ae (st.frames.push [[]]) with
       | error e => simp [liftS]
       | ok r =>
         obtain ⟨o, fs⟩ := r
@@ -192,17 +192,19 @@ theorem include_sim {env : Env} {ctx : Cfg} {f : Nat} (h : Hyp env ctx f) (henv 
           simp only [templateOK, Bool.and_eq_true] at this
           exact this.1
         have hc := h.chain [t] T.layout
-          { st with blocks := prepare T.blocks, depth := fun _ => 0, loaded := [] } rcur disc
-          (outer + INCLUDE_COST) T.ae (initChainSt env t T hT st) hlay (by simp)
+          { st with blocks := prepare T.blocks, depth := fun _ => 0, loaded := [],
+                    frames := st.frames.setTopClosure none } rcur disc
+          (outer + INCLUDE_COST) T.ae (initChainSt env t T hT { st with frames := st.frames.setTopClosure none }) hlay (by simp)
         simp only [] at hc
         rw [← hc]
         cases evalImpl env ctx f rcur disc false (outer + INCLUDE_COST) T.ae T.layout
-          { st with blocks := prepare T.blocks, depth := fun _ => 0, loaded := [] } with
+          { st with blocks := prepare T.blocks, depth := fun _ => 0, loaded := [],
+                    frames := st.frames.setTopClosure none } with
         | error e => simp [outFr, liftS]
         | ok r => obtain ⟨o, st'⟩ := r; simp [outFr, liftS]
 
-theorem loop_sim (run : St → Res) (run' : List Frame → SRes) (st : St)
-    (hrun : ∀ (fs : List Frame), run { st with frames := fs } = liftS (run' fs) { st with frames := fs })
+theorem loop_sim (run : St → Res) (run' : Vars → SRes) (st : St)
+    (hrun : ∀ (fs : Vars), run { st with frames := fs } = liftS (run' fs) { st with frames := fs })
     (v : Nat) (vals : List String) (fl : Nat) :
     loopItems run v vals fl st = liftS (specLoop run' v vals fl st.frames) st := by
   unfold loopItems specLoop
@@ -211,14 +213,14 @@ theorem loop_sim (run : St → Res) (run' : List Frame → SRes) (st : St)
         match acc with
         | .error e => .error e
         | .ok (o, s) =>
-          match run { s with frames := s.frames.take fl ++ [[(v, .str val)]] } with
+          match run { s with frames := (s.frames.take fl).push [[(v, Val.str val)]] } with
           | .error e => .error e
           | .ok (o', s') => .ok (o ++ o', s')) acc =
       liftS (vals.foldl (fun (acc : SRes) val =>
         match acc with
         | .error e => .error e
         | .ok (o, s) =>
-          match run' (s.take fl ++ [[(v, .str val)]]) with
+          match run' ((s.take fl).push [[(v, Val.str val)]]) with
           | .error e => .error e
           | .ok (o', s') => .ok (o ++ o', s')) acc') st := by
     induction vals with
@@ -233,16 +235,16 @@ theorem loop_sim (run : St → Res) (run' : List Frame → SRes) (st : St)
       | ok r =>
         obtain ⟨o, fs⟩ := r
         simp only [liftS]
-        have := hrun (fs.take fl ++ [[(v, .str val)]])
+        have := hrun ((fs.take fl).push [[(v, Val.str val)]])
         rw [this]
-        cases run' (fs.take fl ++ [[(v, .str val)]]) with
+        cases run' ((fs.take fl).push [[(v, Val.str val)]]) with
         | error e => simp [liftS]
         | ok r' => obtain ⟨o', fs'⟩ := r'; simp [liftS]
   exact key _ _ (by simp [liftS])
 
 theorem cont_finish (R' : SRes) (st : St)
-    (G : St → Except Err (List String × St × Option (List Item))) (S : List Frame → SRes)
-    (K : List Frame → Except Err (List String × St × Option (List Item)))
+    (G : St → Except Err (List String × St × Option (List Item))) (S : Vars → SRes)
+    (K : Vars → Except Err (List String × St × Option (List Item)))
     (hG : ∀ fs, G { st with frames := fs } = thenStepsF (S fs) K) :
     Res.andThen (liftS R' st) G =
       thenStepsF (match R' with
@@ -398,8 +400,8 @@ theorem sim_prefix {env : Env} {ctx : Cfg} {f : Nat} (h : Hyp env ctx f) (henv :
       | true => simp [thenStepsF]
       | false =>
         simp only [Bool.false_eq_true, if_false]
-        rw [include_sim h henv rcur false false outer [t] false { st with frames := st.frames ++ [[]] }]
-        cases specInclude env (specAll env ctx f) false false outer [t] false (st.frames ++ [[]]) with
+        rw [include_sim h henv rcur false false outer [t] false { st with frames := st.frames.push [[]] }]
+        cases specInclude env (specAll env ctx f) false false outer [t] false (st.frames.push [[]]) with
         | error e => rfl
         | ok r =>
           obtain ⟨o, fs'⟩ := r
@@ -411,8 +413,8 @@ theorem sim_prefix {env : Env} {ctx : Cfg} {f : Nat} (h : Hyp env ctx f) (henv :
       | true => simp [thenStepsF]
       | false =>
         simp only [Bool.false_eq_true, if_false]
-        rw [include_sim h henv rcur true false outer [t] false { st with frames := st.frames ++ [[]] }]
-        cases specInclude env (specAll env ctx f) true false outer [t] false (st.frames ++ [[]]) with
+        rw [include_sim h henv rcur true false outer [t] false { st with frames := st.frames.push [[]] }]
+        cases specInclude env (specAll env ctx f) true false outer [t] false (st.frames.push [[]]) with
         | error e => rfl
         | ok r =>
           obtain ⟨o, fs'⟩ := r
@@ -432,17 +434,17 @@ theorem sim_prefix {env : Env} {ctx : Cfg} {f : Nat} (h : Hyp env ctx f) (henv :
             rcases hit1 with h1 | h1
             · simpa [itemOK] using h1
             · simp [isExtends] at h1
-          have hrun : ∀ fs : List Frame,
+          have hrun : ∀ fs : Vars,
               evalImpl env ctx f rcur (disc0 || parent.isSome) (ext0 || parent.isSome) outer ae body
-                  { ({ st with frames := st.frames ++ [[]] } : St) with frames := fs } =
+                  { ({ st with frames := st.frames.push [[]] } : St) with frames := fs } =
                 liftS ((specAll env ctx f).list D (cur.map (fun n => (n, k))) (disc0 || parent.isSome)
                   (ext0 || parent.isSome) outer ae body fs)
-                  { ({ st with frames := st.frames ++ [[]] } : St) with frames := fs } := by
+                  { ({ st with frames := st.frames.push [[]] } : St) with frames := fs } := by
             intro fs
             exact h.list D hwf cur blk k rcur _ _ outer ae body _ hrc hblk hok (hg.setFrames fs)
-          rw [loop_sim _ _ { st with frames := st.frames ++ [[]] } hrun v vals st.frames.length]
+          rw [loop_sim _ _ { st with frames := st.frames.push [[]] } hrun v vals st.frames.length]
           cases specLoop ((specAll env ctx f).list D (cur.map (fun n => (n, k))) (disc0 || parent.isSome)
-              (ext0 || parent.isSome) outer ae body) v vals st.frames.length (st.frames ++ [[]]) with
+              (ext0 || parent.isSome) outer ae body) v vals st.frames.length (st.frames.push [[]]) with
           | error e => rfl
           | ok r =>
             obtain ⟨o, fs'⟩ := r
@@ -462,14 +464,15 @@ theorem sim_prefix {env : Env} {ctx : Cfg} {f : Nat} (h : Hyp env ctx f) (henv :
             · simpa [itemOK] using h1
             · simp [isExtends] at h1
           have hg2 : Good D none false k
-              { st with frames := [[], [(arg, Val.str val)]] } :=
+              { st with frames := (store st.frames m Val.opaque).macroCtx arg (Val.str val) } :=
             ⟨hg.blocks, (by intro n hn; cases hn), (by intro hb; cases hb)⟩
           have := h.list D hwf none false k none false false
             (outer + (store st.frames m Val.opaque).length + MACRO_COST) ae body _ (by intro n hn; cases hn) (by intro hc; cases hc) hok hg2
           simp only [Option.map_none] at this
           rw [this]
           cases (specAll env ctx f).list D none false false
-              (outer + (store st.frames m Val.opaque).length + MACRO_COST) ae body [[], [(arg, Val.str val)]] with
+              (outer + (store st.frames m Val.opaque).length + MACRO_COST) ae body
+              ((store st.frames m Val.opaque).macroCtx arg (Val.str val)) with
           | error e => rfl
           | ok r =>
             obtain ⟨o, fs'⟩ := r
@@ -509,6 +512,16 @@ theorem sim_prefix {env : Env} {ctx : Cfg} {f : Nat} (h : Hyp env ctx f) (henv :
           obtain ⟨o, fs'⟩ := r2
           exact cont_finish (.ok (o, fs')) st _ _ _ hG
     | setVar v s =>
+      simp only [stepItems, specItems]
+      cases varItem ctx (disc0 || parent.isSome) ae _ st.frames with
+      | none => rfl
+      | some r =>
+        cases r with
+        | error e => rfl
+        | ok r2 =>
+          obtain ⟨o, fs'⟩ := r2
+          exact cont_finish (.ok (o, fs')) st _ _ _ hG
+    | defMacroV m' w' =>
       simp only [stepItems, specItems]
       cases varItem ctx (disc0 || parent.isSome) ae _ st.frames with
       | none => rfl
